@@ -478,6 +478,13 @@ func c13Flavours(c *ev.Ctx) {
 		cases = append(cases, fl{fmt.Sprintf("float32(%v) leaf in []any", f), []interface{}{f, map[string]interface{}{"k": f}}, renderNative([]interface{}{float64(f), map[string]interface{}{"k": float64(f)}})})
 		cases = append(cases, fl{fmt.Sprintf("float32(%v) leaf in map[string]any", f), map[string]interface{}{"a": []interface{}{f}, "b": f}, renderNative(map[string]interface{}{"a": []interface{}{float64(f)}, "b": float64(f)})})
 	}
+	for _, u := range []struct {
+		in   interface{}
+		want int
+	}{{uint8(128), 128}, {uint8(200), 200}, {uint8(255), 255}, {uint16(32768), 32768}, {uint16(50000), 50000}, {uint16(65535), 65535}, {uint32(2147483648), 2147483648}, {uint32(4294967295), 4294967295},
+		{uint(1 << 40), 1 << 40}, {uint64(math.MaxInt64), math.MaxInt64}, {int8(-128), -128}, {int16(-32768), -32768}, {int32(math.MinInt32), math.MinInt32}, {int64(math.MinInt64), math.MinInt64}} {
+		cases = append(cases, fl{fmt.Sprintf("%T(%v) leaf", u.in, u.in), []interface{}{u.in, map[string]interface{}{"k": u.in}}, renderNative([]interface{}{u.want, map[string]interface{}{"k": u.want}})})
+	}
 	for _, cs := range cases {
 		c.Eval(1)
 		c.Nontrivial("flavour/" + cs.name)
